@@ -93,6 +93,36 @@ Theorem C08_static_premise_gives_the_dynamic_one : forall terms ops, List.Forall
 Proof. exact ops_pre_static. Qed.
 Print Assumptions C08_static_premise_gives_the_dynamic_one.
 
+(* third session, third round (EGraph/NoError*.v, 22 files): PANIC-FREEDOM OF THE MODEL.  Every Rust panic site is an `Err <tag>` of
+   the model; for EVERY history over statically well-formed terms whose indices are in range, the model never returns a NON-fuel
+   error: each unwrap / index / assert / expect site is excluded by a proved invariant (table in the header of NoError.v; incl. the
+   `.expect("handle_congruence should only be called on hashcons collision!")` site, excluded by the key invariant).  "Modulo fuel"
+   cannot be dropped FOR THE MODEL'S CONSTANTS: the Rust loops are unbounded, the model's are fuelled, and two constants are exceeded
+   by reachable well-formed runs (hp_loop's 100 by two 101-slot terms and one union: C08_model_fuel_constant_is_a_model_limit;
+   rebuild's 2000 by 1999 parents of one class: extra/NoErrorFuelBig.v, 19 min of vm_compute, not part of the build) - limits of the
+   model, outside every correspondence stream, not panics of the implementation.  Results do not depend on the fuel once it suffices
+   (C08_rebuild_result_independent_of_fuel).  NOT proved: termination (existence of a sufficient fuel for every reachable state). *)
+From SE Require Import EGraph.NoErrorBase EGraph.NoErrorTop EGraph.NoError EGraph.NoErrorFuel EGraph.NoErrorFuelHp EGraph.NoErrorLimits.
+Theorem C08_no_panic_modulo_fuel : forall terms ops e, List.Forall term_static terms -> ops_in_range terms ops ->
+  run_ops terms ops [] empty_egraph = Err e -> is_fuel_error e.
+Proof. exact no_panic_modulo_fuel. Qed.
+Print Assumptions C08_no_panic_modulo_fuel.
+
+Theorem C08_rebuild_result_independent_of_fuel : forall f f' s r r',
+  rebuild f s = Ok r -> rebuild f' s = Ok r' -> r = r'.
+Proof. exact rebuild_fuel_indep. Qed.
+Print Assumptions C08_rebuild_result_independent_of_fuel.
+
+Theorem C08_model_fuel_constant_is_a_model_limit :
+  run_ops (cyc_terms 101) [HAdd 0; HAdd 1; HUnion 0 1 None] [] empty_egraph = Err OutOfFuel.
+Proof. exact hp_fuel_exceeded_reachable. Qed.
+Print Assumptions C08_model_fuel_constant_is_a_model_limit.
+
+Theorem C08_unrestricted_statement_is_false :
+  ~ (forall terms ops, exists hs s, run_ops terms ops [] empty_egraph = Ok (hs, s)).
+Proof. exact C08_no_error_full_false. Qed.
+Print Assumptions C08_unrestricted_statement_is_false.
+
 Definition C08_no_error_full : Prop :=
   forall terms ops, exists hs s, run_ops terms ops [] empty_egraph = Ok (hs, s).
 
